@@ -113,6 +113,12 @@ func (d *StreamingBlockDecoder) DecodeWithOffsets() (*BlockTransactionOffsets, e
 
 	// Shelley+ block layout: [header, tx_bodies[], witnesses[], metadata_map, invalid_txs[]]
 	arrayHeaderSize := cborArrayHeaderSize(len(blockArray))
+	if blockStart >= 0 && blockStart < len(d.data) {
+		arrayHeaderSize = cborArrayHeaderSizeOf(
+			d.data[blockStart:],
+			len(blockArray),
+		)
+	}
 
 	// Track positions as we walk through the block
 	// #nosec G115 -- Cardano block components are well under 4GiB
@@ -177,7 +183,10 @@ func (d *StreamingBlockDecoder) DecodeWithOffsets() (*BlockTransactionOffsets, e
 	d.offsets.Transactions = make([]TransactionLocation, len(txBodiesRaw))
 
 	// Calculate individual transaction body offsets
-	bodiesArrayHeader := uint32(cborArrayHeaderSize(len(txBodiesRaw)))
+	bodiesArrayHeader := cborArrayHeaderSizeOf(
+		[]byte(blockArray[1]),
+		len(txBodiesRaw),
+	)
 	bodyPos := txBodiesOffset + bodiesArrayHeader
 
 	for i, rawBody := range txBodiesRaw {
@@ -195,7 +204,10 @@ func (d *StreamingBlockDecoder) DecodeWithOffsets() (*BlockTransactionOffsets, e
 	}
 
 	// Calculate individual witness set offsets
-	witnessArrayHeader := uint32(cborArrayHeaderSize(len(witnessesRaw)))
+	witnessArrayHeader := cborArrayHeaderSizeOf(
+		[]byte(blockArray[2]),
+		len(witnessesRaw),
+	)
 	witnessPos := witnessesOffset + witnessArrayHeader
 
 	for i, rawWitness := range witnessesRaw {
@@ -292,7 +304,13 @@ func (d *StreamingBlockDecoder) extractOutputOffsets(
 			// Calculate the absolute offset of the outputs array
 			// #nosec G115 -- Cardano tx body offsets are well under 4GiB
 			outputsArrayOffset := bodyOffset + uint32(headerSize) + uint32(valueStart)
-			outputsArrayHeader := uint32(cborArrayHeaderSize(len(outputsRaw)))
+			outputsArrayHeader := cborArrayHeaderSize(len(outputsRaw))
+			if arrayStartIdx := int(headerSize) + valueStart; arrayStartIdx < len(bodyData) {
+				outputsArrayHeader = cborArrayHeaderSizeOf(
+					bodyData[arrayStartIdx:],
+					len(outputsRaw),
+				)
+			}
 
 			// Track position within outputs array
 			outputPos := outputsArrayOffset + outputsArrayHeader
